@@ -155,6 +155,12 @@ void prop(const Case& cs) {
   uint64_t seed = seed_from(cs.get("seed", 0));
   update_theta_sketch::builder b;
   b.set_lg_k(lg_k).set_resize_factor(static_cast<update_theta_sketch::resize_factor>(rf)).set_p(p).set_seed(seed);
+  // a builder that refused an argument still builds the last accepted configuration (cfg "refuse": which illegal setter calls are made first)
+  const int refuse = static_cast<int>(cs.get("refuse", 0) & 7);
+  if (refuse & 1) { bool t = false; try { b.set_lg_k(4); } catch (const std::invalid_argument&) { t = true; } VF_CHECK(t, "builder-refuses", "set_lg_k(4) accepted"); }
+  if (refuse & 2) { bool t = false; try { b.set_lg_k(27); } catch (const std::invalid_argument&) { t = true; } VF_CHECK(t, "builder-refuses", "set_lg_k(27) accepted"); }
+  if (refuse & 4) { bool t = false; try { b.set_p(1.5f); } catch (const std::invalid_argument&) { t = true; } VF_CHECK(t, "builder-refuses", "set_p(1.5) accepted"); }
+  if (refuse) vf::label("builder-reused-after-refusal");
   Ctx c{b.build(), Model{}};
   Model& m = c.m;
   m.seed = seed; m.k = 1u << lg_k;
@@ -243,7 +249,8 @@ rc::Gen<Case> gen_main() {
   return make_case({{"lg_k", rc::gen::weightedOneOf<int64_t>({{8, range(5, 7)}, {3, range(8, 10)}, {1, range(11, 13)}})},
                     {"rf", range(0, 3)},
                     {"p", rc::gen::weightedOneOf<int64_t>({{4, rc::gen::just<int64_t>(0)}, {3, range(1, 3)}, {2, range(4, 1 << 20)}})},
-                    {"seed", rc::gen::weightedOneOf<int64_t>({{2, rc::gen::just<int64_t>(0)}, {1, range(1, 1 << 20)}})}},
+                    {"seed", rc::gen::weightedOneOf<int64_t>({{2, rc::gen::just<int64_t>(0)}, {1, range(1, 1 << 20)}})},
+                    {"refuse", rc::gen::weightedOneOf<int64_t>({{3, rc::gen::just<int64_t>(0)}, {1, vf::pick({1, 2, 3, 4, 5, 6, 7})}})}},
                    oplist(opg, 2, 0.4));
 }
 
